@@ -34,6 +34,8 @@ for d in sorted(glob.glob(root + "/*/") + glob.glob("/verif/seeded/*/")):
             want = meta.get("expect", "violation")
             ok = (want == "violation" and r.returncode == 1 and any(meta.get("obligation", "") in l for l in vio)) or (want == "silent" and r.returncode == 0 and not vio)
             print(f"{name} [{prop}]: {'ok' if ok else 'UNEXPECTED'} (exit {r.returncode}, {len(vio)} violation lines; expected {want} {meta.get('obligation','')})")
+            if ok and vio:
+                print("     e.g. " + vio[0].split("obligation=")[-1][:160])
             if not ok:
                 fails += 1
                 for l in (vio[:5] or r.stdout.splitlines()[-5:]):
